@@ -30,7 +30,7 @@ def rowmap_matrix(rm):
 def execute(inst):
     pt = inst["pt"]
     line = dict(oid=inst["oid"], rel=inst["rel"], pt=pt, terms=inst["terms"], outcome="OK", keyset_ok=True,
-                nkeys=0, resid_milli=0, nontrivial=False, worst="")
+                nkeys=0, resid_milli=0, finite=True, nontrivial=False, worst="")
     extra = inst.get("extra", {})
     # group terms by run (cells that differ only in flavour share one run)
     groups = {}
@@ -74,7 +74,12 @@ def execute(inst):
                 scale = max(scale, float(np.abs(v).max()) * abs(cf))
             if scale > 0:
                 line["nontrivial"] = True
-            rmax = float(np.abs(resid).max()) if np.all(np.isfinite(resid)) else float("nan")
+            if not np.all(np.isfinite(resid)):
+                # judged by its own clause; the other order keys of the instance are still compared
+                line["finite"] = False
+                line["worst"] = line["worst"] or f"pt{i} key{k} has non-finite entries"
+                continue
+            rmax = float(np.abs(resid).max())
             mm = common.milli(rmax, REL_TOL * scale) if (scale > 0 or rmax != 0) else 0
             if mm > worst:
                 worst = mm
